@@ -19,6 +19,7 @@ package tsrc
 import (
 	goparser "go/parser"
 	"go/token"
+	"regexp"
 	"strconv"
 	"strings"
 	"sync"
@@ -233,6 +234,34 @@ func shrinkTokens(ts []string, keep func([]string) bool) []string {
 	return ts
 }
 
+// derivable reports whether cand can be obtained from cur by deleting tokens
+// and renaming identifiers (whitespace in cand may also stand for any
+// whitespace of cur).
+func derivable(cand, cur string) bool {
+	isIdent := func(t string) bool {
+		c := t[0]
+		return c == '_' || c >= 'a' && c <= 'z' || c >= 'A' && c <= 'Z'
+	}
+	isSpace := func(t string) bool { return strings.TrimSpace(t) == "" }
+	ct, ut := tokenizeFine(cand), tokenizeFine(cur)
+	j := 0
+	for _, t := range ct {
+		if isSpace(t) && t != "\n" {
+			continue // horizontal padding of the candidate is not significant
+		}
+		for ; j < len(ut); j++ {
+			if ut[j] == t || (isIdent(t) && isIdent(ut[j])) {
+				break
+			}
+		}
+		if j == len(ut) {
+			return false
+		}
+		j++
+	}
+	return true
+}
+
 // renameIdents maps the identifiers among ts (not Go keywords, not selectors,
 // not the first skip tokens) to the given canonical names in order of
 // appearance.
@@ -305,7 +334,7 @@ func (r *reducer) reduceItems() {
 		if !r.try(func() { f.Header = "" }, func() { f.Header = h }) {
 			done := false
 			for _, c := range []string{"// c\n", "//go:build p", "//go:build p\n"} {
-				if h == c || r.try(func() { f.Header = c }, func() { f.Header = h }) {
+				if h == c || (derivable(c, h) && r.try(func() { f.Header = c }, func() { f.Header = h })) {
 					done = true
 					break
 				}
@@ -366,7 +395,7 @@ func (r *reducer) canonItems() {
 			// css / script templates and Go blocks are opaque text: shorten token-wise, rename identifiers
 			o := it.Sig
 			// gofmt is not idempotent for a comment in front of a declaration on the same line
-			if c := "var a int\n/**/var b int"; o == c || r.try(func() { it.Sig = c }, func() { it.Sig = o }) {
+			if c := "var a int\n/**/var b int"; o == c || (reCommentThenDecl.MatchString(o) && r.try(func() { it.Sig = c }, func() { it.Sig = o })) {
 				r.rawDone[c] = true
 				continue
 			}
@@ -558,6 +587,8 @@ func (r *reducer) reduceNode(n *Node) {
 
 // ---- canonical renaming
 
+var reCommentThenDecl = regexp.MustCompile(`\*/[ \t]*(var|import|func|const|type)\b`)
+
 var blockNames = map[string]bool{}
 
 func init() {
@@ -735,18 +766,28 @@ func (r *reducer) canonGo(sort string, p *string, canon ...string) {
 
 func (r *reducer) canonS(p *string, tokens bool, canon ...string) {
 	o := *p
-	for _, c := range canon {
+	// canon[0] is the innocuous spelling of the slot. The further candidates are
+	// canonical spellings of inputs that are known to fail; replacing an
+	// unrelated value by one of them would turn any failure into a known one,
+	// so they are only used when they can be obtained from the current value by
+	// deleting tokens and renaming identifiers (i.e. as a canonical choice among
+	// the results delta debugging could produce).
+	eligible := func(i int, c string) bool { return i == 0 || derivable(c, o) }
+	for i, c := range canon {
 		if o == c {
 			return
 		}
-		if r.try(func() { *p = c }, func() { *p = o }) {
+		if eligible(i, c) && r.try(func() { *p = c }, func() { *p = o }) {
 			return
 		}
 	}
 	// the failure may need the whitespace captured around the expression
 	t := strings.TrimSpace(o)
 	if lw, tw := o[:strings.Index(o, t)], o[strings.Index(o, t)+len(t):]; t != "" && (lw != "" || tw != "") {
-		for _, c := range canon {
+		for i, c := range canon {
+			if !eligible(i, c) {
+				continue
+			}
 			for _, v := range []string{c + wsClass(tw), wsClass(lw) + c, wsClass(lw) + c + wsClass(tw)} {
 				if v != c && r.try(func() { *p = v }, func() { *p = o }) {
 					return
@@ -837,12 +878,17 @@ func (r *reducer) canonList(list *[]*Node) {
 	}
 }
 
-func (r *reducer) canonPads(l, rr *string) {
-	if *l != " " {
+// canonPads sets the padding between braces and expression to one space. An
+// empty padding next to whitespace that belongs to the captured expression
+// text s is left alone (the space is already there).
+func (r *reducer) canonPads(l, rr *string, s string) {
+	startsWS := s != "" && isWS(s[0])
+	endsWS := s != "" && isWS(s[len(s)-1])
+	if *l != " " && !(*l == "" && startsWS) {
 		o := *l
 		r.try(func() { *l = " " }, func() { *l = o })
 	}
-	if *rr != " " {
+	if *rr != " " && !(*rr == "" && endsWS) {
 		o := *rr
 		r.try(func() { *rr = " " }, func() { *rr = o })
 	}
@@ -855,7 +901,7 @@ func (r *reducer) canonShell(n *Node) {
 		r.canonStr(&n.S, "aa", "-")
 	case KExpr:
 		r.canonGo("expr", &n.S, "s", "s /* c */", "s // c\n", "/* c */ s")
-		r.canonPads(&n.PadL, &n.PadR)
+		r.canonPads(&n.PadL, &n.PadR, n.S)
 	case KElem:
 		// a void element -> an empty div when the failure does not need voidness
 		if n.Void {
@@ -925,9 +971,9 @@ func (r *reducer) canonShell(n *Node) {
 		}
 	case KLegacyCall:
 		r.canonGo("call", &n.S, "c()", "c( )", "c(\n)", "/* c */ c()", "\n/* c */c()")
-		r.canonPads(&n.PadL, &n.PadR)
+		r.canonPads(&n.PadL, &n.PadR, n.S)
 	case KChildren:
-		r.canonPads(&n.PadL, &n.PadR)
+		r.canonPads(&n.PadL, &n.PadR, n.S)
 	case KIf:
 		r.canonGo(map[Kind]string{KIf: "if", KSwitch: "switch"}[n.K], &n.S, "b")
 		r.canonWS(&n.Lead, true)
@@ -966,7 +1012,7 @@ func (r *reducer) canonShell(n *Node) {
 		}
 	case KGoCode:
 		r.canonGo("stmts", &n.S, "v := 1", "v := 1 /* c */", "v := 1 // c\n", "v := 1; u := 2")
-		r.canonPads(&n.PadL, &n.PadR)
+		r.canonPads(&n.PadL, &n.PadR, n.S)
 	case KDoctype:
 		r.canonStr(&n.S, "html")
 	}
@@ -993,14 +1039,14 @@ func (r *reducer) canonAttrs(as []*Attr) {
 		case ABoolExpr:
 			r.canonName(&a.Name, "disabled")
 			r.canonGo("expr", &a.S, "b", "b /* c */")
-			r.canonPads(&a.PadL, &a.PadR)
+			r.canonPads(&a.PadL, &a.PadR, a.S)
 		case AExpr:
 			r.canonName(&a.Name, "title")
 			r.canonGo("expr", &a.S, "s", "s /* c */", "s // c\n", "/* c */ s", "s, // c\n")
-			r.canonPads(&a.PadL, &a.PadR)
+			r.canonPads(&a.PadL, &a.PadR, a.S)
 		case ASpread:
 			r.canonGo("expr", &a.S, "at")
-			r.canonPads(&a.PadL, &a.PadR)
+			r.canonPads(&a.PadL, &a.PadR, a.S)
 		case ACond:
 			r.canonGo("expr", &a.S, "b")
 			r.canonAttrs(a.Then)
